@@ -605,3 +605,11 @@ fn copy_or_downsample(src_mode: &Mode, src_lg_k: u8, tgt_lg_k: u8) -> Array8 {
         result
     }
 }
+
+#[cfg(feature = "verif-hooks")]
+impl HllUnion {
+    /// Verification hook: the internal gadget sketch.
+    pub fn verif_gadget(&self) -> &HllSketch {
+        &self.gadget
+    }
+}
